@@ -482,6 +482,28 @@ def runCsLine (r : Report) (sec : Nat) (cfg : CsCfg) (scb : String) (l : Line) :
       let r := match csBodyMonitor env cfg req obs with
         | some msg => r.violation sec l.idx s!"{msg} [{showResp obs}]"
         | none => r
+      let r := match csReadMonitor env cfg req obs with
+        | some msg => r.violation sec l.idx s!"{msg} [{showResp obs}]{if (kv? a "inter").isSome then s!" [while the request sat in its handler another request ({kvStr a "inter"}) went through the verifier]" else ""}"
+        | none => r
+      -- inter: request B went through the same middleware while A sat in its handler; B is modelled as a request of its own
+      let r := match kv? a "inter" with
+        | none => r
+        | some ik =>
+          match (kv? a "bbody").bind unhex, (kv? o "bsig").bind unhexStr, (kv? a "fp").bind unhexStr with
+          | some bbody, some bsig, some fp =>
+            let hdrB := if ik = "bare" then [] else [s!"key={fp}; secret={secretMark}; signature={bsig}"]
+            let reqB : CsReq := { req with headers := hdrB, cl := bbody.length, body := bbody, uri := "" }
+            let mB := if scb = "none" then contentSecurity (oracleCipher table 0xEE) env cfg reqB (fun _ => [])
+                      else contentSecurityWithCallbacks (oracleCipher table 0xEE) env cfg reqB (fun _ => []) (if scb = "status" then 401 else 200)
+            let typeB : Int := match parseContentSecurity env reqB with | .ok h => h.contentType | .error _ => 0
+            let r := r.addCover s!"cs-inter-{ik}-{if mB.ran then "B-ran" else s!"B-{mB.status}"}-{if obs.ran then "A-ran" else "A-refused"}{if bbody.length ≥ req.body.length then "" else "-B-shorter"}"
+            let bran : Bool := decide (kv? o "bran" ≠ some "0")
+            let r := if obs.ran ∧ typeB ≠ 1 ∧ (bran ≠ mB.ran ∨ (!mB.ran ∧ kvNat o "bstatus" 0 ≠ mB.status)) then
+                r.mismatch sec l.idx s!"B: ran={mB.ran} status={mB.status}" s!"B: ran={bran} status={kvNat o "bstatus" 0}" else r
+            if obs.ran ∧ bran ∧ typeB ≠ 1 ∧ kv? o "bseenok" ≠ some "1" then
+              r.violation sec l.idx "cs: the handler of the second request read a body other than its own"
+            else r
+          | _, _, _ => if (kv? o "ran") = some "0" then r else r.mismatch sec l.idx "unparsable-inter" (joinSp l.op)
       let r := match csCompleteMonitor env cfg req obs with
         | some msg => r.violation sec l.idx s!"{msg} [{showResp obs}]"
         | none => if csCovers env cfg req ∧ obs.ran then r.addCover "cs-covering-signature-reached-the-handler" else r
@@ -770,6 +792,13 @@ def runRestLine (r : Report) (sec : Nat) (cfg : RestCfg) (st : RestSt) (l : Line
           let mshow := show_ run.ran run.status model.2.1 (count "cm" run.saw) musesRan model.2.2.1 model.2.2.2 mseen
           let oshow := show_ ran status ctx cm use ucb scb seen
           let r := if mshow ≠ oshow then r.mismatch sec l.idx mshow oshow else r
+          -- inter: another request went through the server while this one sat in its handler: the handler still reads ITS body
+          let r := match kv? a "inter" with
+            | some ik => r.addCover s!"rest-inter-{ik}-{if ran then "A-ran" else "A-refused"}"
+            | none => r
+          let r := if ran ∧ seen ≠ sentBody then
+              r.violation sec l.idx s!"rest: the handler ran on a body that is not the body the request carried (and its covering signature digests) [chain {chainName}, group {groupName opts}, tok={kvStr a "tok"} cs={kvStr a "cs"} inter={kvStr a "inter"}] [{oshow}]"
+            else r
           -- the group's OWN decrypters (model: `loadDecrypters` over the group's key list) against the harness' fact
           let own := cfg.keys.getD g []
           let fpSent := ((kv? o "fp").bind unhexStr).getD ""
